@@ -178,6 +178,8 @@ class Campaign:
             hists.append(satenc_ov_gen.gen_wide_history(rng))
         for _ in range(400 if not ctx.thorough else 5000):
             hists.append(satenc_ov_gen.gen_multi_true_history(rng))
+        for _ in range(6 if not ctx.thorough else 60):
+            hists.append(satenc_ov_gen.gen_very_wide_history(rng))
         lines, spans = [], []
         for h in hists:
             ls = render(h)
